@@ -42,8 +42,10 @@ func forallIn(lo, hi int, f func(int) bool) bool {
 // but (at most) counters.
 //
 //@ func (*NDNLPLinkService).handleIncomingFrame
+//@   option heap-closedness
 //@   requires specFwReady() && l.transport != nil && l.partialMessageStore != nil
 //@   modifies l.nInInterests, l.nInData, l.partialMessageStore[*], all([][]byte)
+//@   loop 1 invariant [source-intact] len(fragment) > 1 ==> forallIn(0, len(fragment), func(j int) bool { return sliceArr(fragment[j]) != sliceArr(wire) })
 
 //@ func (*NDNLPLinkService).reassemblePacket
 //@   requires l.partialMessageStore != nil && frame != nil
